@@ -140,6 +140,11 @@ Section Reader.
               if negb (in_range t target) then RTrap 53 else
               if t_flag t && negb (H (revT acc') mod 4294967296 =? e_k (ent t target))
               then RErr sk_E_corruption_detected dst' (forget_position st2)
+              (* fix b63eccc: the frame is complete but its seek-table entry says it goes on: table and frame disagree, whether or
+                 not this read wants more (before it a read ending exactly at the real end of a short frame returned success and
+                 kept its position; the next call continued into the next frame of the file) *)
+              else if short_frame_check && (r_doff st2 <? frameEnd)
+              then RErr sk_E_corruption_detected dst' (forget_position st2)
               else if r_doff st2 <? endpos then
                 match offset_to_frame t (r_doff st2) with
                 | Ok target' =>
